@@ -91,11 +91,12 @@ func (v pathValue) Int() int {
 	return v.iv
 }
 
-func (v pathValue) Int32() int32 {
+// Int32 returns the value as int32; ok is false if it does not fit
+func (v pathValue) Int32() (ret int32, ok bool) {
 	if v.iv > math.MaxInt32 || v.iv < math.MinInt32 {
-		panic("integer overflow")
+		return 0, false
 	}
-	return int32(v.iv)
+	return int32(v.iv), true
 }
 
 type pathToken struct {
@@ -348,7 +349,11 @@ func (cur *FieldMask) GetPath(desc *thrift_reflection.TypeDescriptor, path strin
 
 			var f *thrift_reflection.FieldDescriptor
 			if typ == pathTypeLitInt {
-				f = st.GetFieldById(tok.val.Int32())
+				id, ok := tok.val.Int32()
+				if !ok {
+					return nil, false
+				}
+				f = st.GetFieldById(id)
 				if f == nil {
 					return nil, false
 				}
